@@ -24,8 +24,20 @@ pub fn base_files(tier: Tier) -> Vec<(String, XzFile)> {
         v.push((format!("{} block(s) check {} size-fields {} extra-pad {}", nb, check, sizes, pad), mk(nb, check, sizes, pad)));
     }
     if tier == Tier::Thorough {
-        for (nb, check, sizes, pad) in [(3, 1, true, 3), (2, 4, true, 0), (1, 1, true, 5), (3, 0, true, 0), (0, 0, false, 0)] {
-            v.push((format!("{} block(s) check {} size-fields {} extra-pad {}", nb, check, sizes, pad), mk(nb, check, sizes, pad)));
+        for nb in 0..=3usize {
+            for check in [0u8, 1, 4] {
+                for sizes in [false, true] {
+                    for pad in [0usize, 3] {
+                        if nb == 0 && (sizes || pad > 0) {
+                            continue;
+                        }
+                        let label = format!("{} block(s) check {} size-fields {} extra-pad {}", nb, check, sizes, pad);
+                        if !v.iter().any(|x: &(String, XzFile)| x.0 == label) {
+                            v.push((label, mk(nb, check, sizes, pad)));
+                        }
+                    }
+                }
+            }
         }
     }
     v
@@ -283,6 +295,18 @@ pub fn run(tier: Tier) -> i32 {
                 let case = Case::Dec { fmt: Fmt::Xz, opts: Opts::default(), input: Hex(bytes.clone()), rd: Rd::default(), sk: Sk::default() };
                 let silent = if v.is_ok() && out != orig { " (and the output differs from the original)" } else { "" };
                 ctx.violation(&case, &format!("file [{}], {}: inconsistent ({}) => Err{}", bases[*bi].0, what, reason, silent), &obs_of(v, out, consumed), None);
+                return;
+            }
+            // the verdict must not depend on how the source hands the bytes over (a check that looks only at the
+            // currently visible buffer would accept the mutant under some fragmentation)
+            for rd in [Rd { period: 1, ..Rd::default() }, Rd { period: 7, ..Rd::default() }, Rd { bufreader: 3, ..Rd::default() }, Rd { bufreader: 16, period: 5, ..Rd::default() }] {
+                let case = Case::Dec { fmt: Fmt::Xz, opts: Opts::default(), input: Hex(bytes.clone()), rd: rd.clone(), sk: Sk::default() };
+                let o = crate::cases::run_case(&case);
+                ctx.traces.fetch_add(1, Ordering::Relaxed);
+                if !o.v.is_err() {
+                    ctx.violation(&case, &format!("file [{}], {}: inconsistent ({}) => Err, also when the source is read through {:?}", bases[*bi].0, what, reason, rd), &o, None);
+                    return;
+                }
             }
             if i % 499 == 0 {
                 ctx.sample(json!({"base": bases[*bi].0, "mutation": what, "reference_parser": reason}));
